@@ -706,6 +706,21 @@ func c09DeriveStorm(c *mon.Ctx, r *mon.Rand) {
 		}
 		return "c", "c"
 	}
+	// a third of the storms: the root carries fourteen more tags of which every
+	// derivation overrides one (more key/value pairs than any small-input path of
+	// the key generation handles)
+	wide := map[string]string{}
+	var override map[string]string
+	if r.Chance(1, 3) {
+		for k := 0; k < 14; k++ {
+			sopts.Tags[fmt.Sprintf("w%02d", k)] = "parent"
+			wide[fmt.Sprintf("w%02d", k)] = "parent"
+		}
+		override = map[string]string{fmt.Sprintf("w%02d", r.Intn(14)): "child"}
+		for k, v := range override {
+			wide[k] = v
+		}
+	}
 	root, _ := vNewRoot(sopts, 0, shards)
 	G := 4 * runtime.GOMAXPROCS(0)
 	if G > 64 {
@@ -731,6 +746,9 @@ func c09DeriveStorm(c *mon.Ctx, r *mon.Rand) {
 					tags = map[string]string{"shared": fmt.Sprint(i), "pad": string(pad)}
 				} else {
 					tags = map[string]string{"g": fmt.Sprint(g), "i": fmt.Sprint(i), "pad": string(pad[:len(pad)-g])}
+				}
+				for k, v := range override {
+					tags[k] = v
 				}
 				var sc tally.Scope
 				if i%2 == 0 {
@@ -782,6 +800,9 @@ func c09DeriveStorm(c *mon.Ctx, r *mon.Rand) {
 					want = int64((G - g + 3) / 4)
 				}
 				tags = map[string]string{"rt": "x", "shared": fmt.Sprint(i), "pad": string(pad)}
+			}
+			for k, v := range wide {
+				tags[k] = v
 			}
 			if a := agg[mon.IdentKey(name, tags)]; a.Sum != want {
 				if bad++; bad <= 3 {
